@@ -4,9 +4,10 @@ import json, os, shutil, sys
 ids = [a for a in sys.argv[1:] if not a.startswith("--")] or ["C%02d" % i for i in range(1, 21)]
 round2 = "--round2" in sys.argv
 round3 = "--round3" in sys.argv
+round4 = "--round4" in sys.argv
 for pid in ids:
-    for v in ("EF" if round3 else "CD" if round2 else "AB"):
-        src = "/tmp/%s/%s/%s" % ("seedout3" if round3 else "seedout2" if round2 else "seedout", pid, v)
+    for v in ("GH" if round4 else "EF" if round3 else "CD" if round2 else "AB"):
+        src = "/tmp/%s/%s/%s" % ("seedout4" if round4 else "seedout3" if round3 else "seedout2" if round2 else "seedout", pid, v)
         if not os.path.exists(os.path.join(src, "patch.diff")):
             continue
         dst = "/verif/seeded/%s-%s" % (pid, v)
@@ -18,7 +19,7 @@ for pid in ids:
         crate = "chess_base" if "chess_base/tests" in readme else "chess"
         meta_path = os.path.join(dst, "meta.json")
         meta = json.load(open(meta_path)) if os.path.exists(meta_path) else {}
-        meta.update({"property": pid, "origin": ("third round (told to stay out of /verif): " if round3 else "second round: " if round2 else "") + "written by an independent sub-agent that was given only the property text and a scratch worktree" + (" plus one-line summaries of the earlier changes to avoid repeats" if (round2 or round3) else ""), "needs": " ".join(readme.split())[:700], "demo_crate": crate})
+        meta.update({"property": pid, "origin": ("fourth round (told to stay out of /verif): " if round4 else "third round (told to stay out of /verif): " if round3 else "second round: " if round2 else "") + "written by an independent sub-agent that was given only the property text and a scratch worktree" + (" plus one-line summaries of the earlier changes to avoid repeats" if (round2 or round3 or round4) else ""), "needs": " ".join(readme.split())[:700], "demo_crate": crate})
         meta.setdefault("also", [])
         json.dump(meta, open(meta_path, "w"), indent=1)
         print("imported", dst)
